@@ -66,10 +66,25 @@ func c20UnreachablePeer(x *Ctx) {
 		// B's hub is never started: only its announcement exists
 		_ = b.prov.Announce("svc-B", b.port, []string{"txtvers=1", "path=/ship/", "id=SHIPID-B", "ski=" + b.ski, "register=false", "brand=b", "model=m", "type=t"})
 	})
+	// ... while a reachable, mutually paired peer C keeps connecting and being dropped:
+	// registrations and removals in A's connection registry during A's failing attempts
+	c := r.addNode("C")
+	x.Go("C:start", func() {
+		c.create()
+		simrt.Recv("a", a.ready)
+		c.hub.RegisterRemoteSKI(a.ski)
+		c.hub.Start()
+		for i := 0; i < 60; i++ {
+			simrt.Sleep(time.Duration(100+100*x.Choose("churn-gap", 5)) * time.Millisecond)
+			c.hub.DisconnectSKI(a.ski, "churn")
+		}
+	})
 	x.Go("A:start", func() {
 		a.create()
 		simrt.Recv("b", b.ready)
+		simrt.Recv("c", c.ready)
 		a.hub.RegisterRemoteSKI(b.ski)
+		a.hub.RegisterRemoteSKI(c.ski)
 		a.hub.Start()
 	})
 	x.Go("X:end", func() {
